@@ -10,7 +10,7 @@ pid, k = sys.argv[1], sys.argv[2]
 extra = []
 if "--extra-pkgs" in sys.argv:
     extra = sys.argv[sys.argv.index("--extra-pkgs") + 1].split(",")
-src = "/tmp/seed/out/%s" % pid
+src = os.environ.get("SEED_OUT", "/tmp/seed/out") + "/%s" % pid
 patch = os.path.join(src, k + ".diff")
 demo = os.path.join(src, k + "_demo_test.go")
 wt = "/tmp/seed/confirm-%s-%s" % (pid, k)
